@@ -139,6 +139,38 @@ Example parse_text_sound_nonvacuous : forall smart,
 Proof. intros [|]; vm_compute; repeat split; reflexivity. Qed.
 Print Assumptions parse_text_sound_nonvacuous.
 
+(* ---- the text is cut into lines at newlines and nowhere else ---- *)
+(* A text that is the lines ls joined by newlines (no line contains one) is tokenised line by line from
+   exactly these lines, each stripped on the right -- whatever other characters the lines contain: a form
+   feed, a vertical tab, a lone carriage return, U+001C..U+001E, U+0085, U+2028, U+2029 (the characters at
+   which str.splitlines() cuts, too) stay inside the line and so inside the token that matches them.
+   With parse_text_sound: the leaves of the tree are the tokens of THESE lines.  (Seeded change C01-m5
+   replaced split('\n') by splitlines().) *)
+Theorem text_is_cut_at_newlines_only : forall ls, ls <> [] -> Forall (fun l => ~ In 10 l) ls ->
+  tok_lines (IStr (join_nl ls)) = map rstrip ls.
+Proof. exact text_lines_l. Qed.
+Print Assumptions text_is_cut_at_newlines_only.
+
+Theorem text_without_newline_is_one_line : forall text, ~ In 10 text -> tok_lines (IStr text) = [rstrip text].
+Proof. exact one_line_l. Qed.
+Print Assumptions text_without_newline_is_one_line.
+
+(* a string with a form feed, a span comment (not skipped) with U+2028, a form feed before and a vertical tab
+   after the newline inside it, a rest-of-line token with a lone carriage return and U+0085, white space made of a
+   form feed at the end of the text:   a "p\fq" /*x<U+2028>y\f\nz\v*/ =r\rs<U+0085>t \f   *)
+Definition ox_cfg : lexcfg := mkCfg [([83;80;65;67;69]%Z, PSpace); ([87;79;82;68]%Z, PRange 97 122); ([82;69;83;84]%Z, PEol [61]%Z); ([68;81]%Z, PQuoted 34); ([67;77;76]%Z, PLit [47;42]%Z)] [([67;77;76]%Z, [42;47]%Z)] (@nil (list Z * list Z)) (@nil (list Z * (list Z * list Z))).
+Definition ox_skip : option (list sym) := Some [[83;80;65;67;69]%Z].
+Definition ox_ug : ugrammar := [([69]%Z, [[[84]%Z; [69]%Z]; (@nil (list Z))]); ([84]%Z, [[[87;79;82;68]%Z]; [[82;69;83;84]%Z]; [[68;81]%Z]; [[67;77;76]%Z]])].
+Definition ox_text : list Z := [97;32;34;112;12;113;34;32;47;42;120;8232;121;12;10;122;11;42;47;32;61;114;13;115;133;116;32;12]%Z.
+Definition ox_leaves : list (sym * list Z) := [([87;79;82;68]%Z, [97]%Z); ([68;81]%Z, [112;12;113]%Z); ([67;77;76]%Z, [120;8232;121;10;122;11]%Z); ([82;69;83;84]%Z, [61;114;13;115;133;116]%Z)].
+Example odd_characters_stay_inside_tokens : forall smart,
+  match build_cfg ox_cfg ox_skip ox_ug smart [69]%Z with
+  | Err _ => False
+  | Ok p => rmap leaves (parse_text ox_cfg (skip_set (cfg_terminals ox_cfg) ox_skip) p 8 ox_text None) = Ok ox_leaves
+  end.
+Proof. intros [|]; vm_compute; reflexivity. Qed.
+Print Assumptions odd_characters_stay_inside_tokens.
+
 (* ---- regression shape of the fixed finding: S__S00 IS a key of prods_map and a helper symbol of this
    parser; the call is rejected ---- *)
 Definition tx_helper : sym := [83;95;95;83;48;48].     (* S__S00 *)
